@@ -48,7 +48,8 @@ var props = map[string]propCfg{
 		Decided: []string{
 			"printer half: FTypeToGo and its helpers (funcTypeToGo, fSliceToGo, fTupleToGo, fpToGo, recordTypeToGo, fUnionToGo, tArgsToGo, fargs, freturn) equal the documented type mapping go_type (specs/types.spec) for every FType value",
 		},
-		NotDecided: []string{"parser half: that parseType and friends build the FType the documented grammar prescribes (precedence of [] over *, -> nesting only through parentheses) is not decided", "package qualification of external type names (GenType / piRegEType)"},
+		NotDecided: []string{"parser half: that parseType and friends build the FType the documented grammar prescribes (precedence of [] over *, -> nesting only through parentheses) is NOT proved: a bounded enumeration (depth 2, 3 syntactic positions) stands in for it, labelled bounded", "forward-declaration placeholders (transTRecurse) and generic user types"},
+		BoundedQuick: []func(*run){boundedC15Parser},
 	},
 	"C18": {
 		Modules: []string{"cmd/build_sample_md"},
